@@ -228,7 +228,7 @@ def run_program(rec, m, rng, nsteps, thresholds=(0,), allow_reset=True, blocksca
             if rng.random() < 0.5:
                 exec_op(rec, st, "copy", k, None, blockscan)
                 k = st["live"][-1]
-            exec_op(rec, st, "skipq", k, rng.choice(thresholds), blockscan)
+            exec_op(rec, st, "skipq" if rng.random() < 0.6 else "replace", k, rng.choice(thresholds), blockscan)
         elif r < 0.30 and active:
             exec_op(rec, st, "next", k, None, blockscan)
         elif r < 0.55 and active:
